@@ -922,7 +922,11 @@ func checkAllocErrorChecked(p *Prog, r *Roles, a *allocInfo, res *Result, rule s
 		}
 		rev := vb.pk.Rev
 		if vb.ctx != nil {
+			// the batch is built by a helper: the revision and the branch facts are those of the helper's call site
 			rev = p.ctxValue(rev, vb.ctx)
+			if ins, ok := p.resolveDeep(rev).(ssa.Instruction); ok && ins.Parent() == vb.ctx.Parent() {
+				use = vb.ctx.(ssa.Instruction)
+			}
 		}
 		if why, ok := judge(rev, use, 0); ok {
 			res.ok(rule, construct, p.pos(use.Pos()), why)
